@@ -57,6 +57,10 @@ class Contract:
         self.external_overrides = kw.pop("externals", {})
         self.local_types = kw.pop("local_types", {})   # declared element types of local lists created empty
         self.findings = kw.pop("findings", {})      # {finding id: pre-state clause delimiting the known failing region}
+        # opt-in: an obligation generated again on another path with the identical name, path condition and goal
+        # (same z3 terms) is discharged once (every path re-executes the function from its entry, so the obligations
+        # of a shared prefix are regenerated verbatim on each path)
+        self.dedupe = kw.pop("dedupe", False)
         if kw:
             raise TypeError("unknown contract keys %s" % list(kw))
 
